@@ -51,11 +51,18 @@ theorem e2_head {c : Char} (h : okF c) (Y : Str) : (e2 c ++ Y).head? ≠ some '\
   · rw [e2_plain h]; simp; intro e; subst e; exact absurd h.2.1 (by decide)
   all_goals (subst h; simp [e2])
 
-/-- make reads back what `to_string` wrote — escape table with `#`→`\#`, `$`→`$$` -/
-theorem roundtrip_fixed (tgt : Str) (deps : List Str)
-    (ht : okNameF tgt) (hd : ∀ d ∈ deps, okNameF d) :
-    makeParse (toStringWith tblFixed tgt deps) = some ([tgt], deps) := by
-  obtain ⟨htne, htc, _, htd⟩ := ht
+/-- a name as make spells it: a leading `./` (and the slashes after it) removed -/
+def sd (n : Str) : Str := stripDot n.length n
+
+/-- names of `okNameF` without the `./` condition -/
+def okNameF' (n : Str) : Prop := n ≠ [] ∧ (∀ c ∈ n, okF c) ∧ lastNotSpace n
+
+/-- make reads back what `to_string` wrote, up to its own spelling of `./x` as `x` — escape table
+    with `#`→`\\#`, `$`→`$$` -/
+theorem roundtrip_fixed_dot (tgt : Str) (deps : List Str)
+    (ht : okNameF' tgt) (hd : ∀ d ∈ deps, okNameF' d) :
+    makeParse (toStringWith tblFixed tgt deps) = some ([sd tgt], deps.map sd) := by
+  obtain ⟨htne, htc, _⟩ := ht
   have hdc : ∀ d ∈ deps, ∀ c ∈ d, okF c := fun d h => (hd d h).2.1
   rw [toStringWith_eq]
   simp only [escape_fixed_eq]
@@ -95,14 +102,21 @@ theorem roundtrip_fixed (tgt : Str) (deps : List Str)
   -- phases 5, 6
   rw [deps_no_colon deps hdc]
   simp only [Bool.false_eq_true, if_false]
-  rw [dtb_of_last _ (deps_last deps (fun d h => ⟨(hd d h).2.1, (hd d h).1, (hd d h).2.2.1⟩))]
+  rw [dtb_of_last _ (deps_last deps (fun d h => ⟨(hd d h).2.1, (hd d h).1, (hd d h).2.2⟩))]
   -- phases 7, 8
   rw [sn_target tgt htc htne, sn_all deps (fun d h => ⟨(hd d h).2.1, (hd d h).1⟩)]
-  have hmap : deps.map (fun n => stripDot n.length n) = deps := by
+  simp [sd]
+
+/-- make reads back exactly what `to_string` wrote — escape table with `#`→`\\#`, `$`→`$$` -/
+theorem roundtrip_fixed (tgt : Str) (deps : List Str)
+    (ht : okNameF tgt) (hd : ∀ d ∈ deps, okNameF d) :
+    makeParse (toStringWith tblFixed tgt deps) = some ([tgt], deps) := by
+  rw [roundtrip_fixed_dot tgt deps ⟨ht.1, ht.2.1, ht.2.2.1⟩ (fun d h => ⟨(hd d h).1, (hd d h).2.1, (hd d h).2.2.1⟩)]
+  have hmap : deps.map sd = deps := by
     rw [List.map_congr_left (g := id)]
     · simp
     · intro d h; exact stripDot_id d (hd d h).2.2.2 _
-  simp [hmap, stripDot_id tgt htd]
+  rw [hmap, show sd tgt = tgt from stripDot_id tgt ht.2.2.2 _]
 
 theorem escape_current_eq_fixed (n : Str) (hn : ∀ c ∈ n, okC c) :
     escapeWith tblCurrent n = escapeWith tblFixed n := by
@@ -134,6 +148,30 @@ theorem depfile_roundtrip_partial (tgt : Str) (deps : List Str)
       rw [escape_current_eq_fixed d (hd d (by simp)).2.1, ih (fun d h => hd d (by simp [h]))]
   rw [h1]
   exact roundtrip_fixed tgt deps (okNameC_okNameF ht) (fun d h => okNameC_okNameF (hd d h))
+
+/-- names of `okNameC` without the `./` condition (bindgen's own spelling of a quoted include
+    found next to `main.h` is `./inc/a.h`) -/
+def okNameC' (n : Str) : Prop := n ≠ [] ∧ (∀ c ∈ n, okC c) ∧ lastNotSpace n
+
+/-- the round trip up to make's spelling of `./x` as `x` (same file) -/
+theorem depfile_roundtrip_partial_dot (tgt : Str) (deps : List Str)
+    (ht : okNameC' tgt) (hd : ∀ d ∈ deps, okNameC' d) :
+    makeParse (toStringWith tblCurrent tgt deps) = some ([sd tgt], deps.map sd) := by
+  have h1 : toStringWith tblCurrent tgt deps = toStringWith tblFixed tgt deps := by
+    rw [toStringWith_eq, toStringWith_eq, escape_current_eq_fixed tgt ht.2.1]
+    congr 2
+    clear ht
+    induction deps with
+    | nil => rfl
+    | cons d ds ih =>
+      simp only [List.flatMap_cons]
+      rw [escape_current_eq_fixed d (hd d (by simp)).2.1, ih (fun d h => hd d (by simp [h]))]
+  rw [h1]
+  exact roundtrip_fixed_dot tgt deps ⟨ht.1, fun c hc => okC_okF (ht.2.1 c hc), ht.2.2⟩
+    (fun d h => ⟨(hd d h).1, fun c hc => okC_okF ((hd d h).2.1 c hc), (hd d h).2.2⟩)
+
+/-- `sd` removes nothing but a leading `./` -/
+theorem sd_id_of_noDotSlash (n : Str) (h : noDotSlash n) : sd n = n := stripDot_id n h _
 
 /-- the same statement for whatever table the translator extracted from deps.rs, provided it is
     one of the two known forms (obligation `escape_table_known` below) -/
@@ -405,15 +443,32 @@ theorem run_inv (cfg : Cfg) (inputs : List Nat) :
         · refine ih _ _ st' ?_ hrun
           exact inv_enter (cfg := cfg) [f] (by simp) hinv (Or.inr (by simp)) (by intro g hg; cases hg)
 
+theorem mem_topItems (cwd : Nat) (tops : List Top) (f : Nat) :
+    Item.input f ∈ (tops.map (topItems cwd)).flatten ↔ Top.file f ∈ tops := by
+  induction tops with
+  | nil => simp
+  | cons t ts ih =>
+    simp only [List.map_cons, List.flatten_cons, List.mem_append, List.mem_cons, ih]
+    cases t with
+    | file g => simp [topItems]
+    | virt b => simp [topItems]
+
+theorem mem_commandLineOrder (inputs : List Nat) (virt : List (List Dir)) (f : Nat) :
+    Top.file f ∈ commandLineOrder inputs virt ↔ f ∈ inputs := by
+  unfold commandLineOrder
+  rcases List.eq_nil_or_concat inputs with rfl | ⟨l, m, rfl⟩
+  · cases virt <;> simp
+  · simp [List.getLast?_append]
+
+theorem mem_initial (cwd : Nat) (inputs : List Nat) (virt : List (List Dir)) (f : Nat) :
+    Item.input f ∈ initial cwd inputs virt ↔ f ∈ inputs := by
+  unfold initial; rw [mem_topItems, mem_commandLineOrder]
+
 theorem inv_initial (cwd : Nat) (inputs : List Nat) (virt : List (List Dir)) :
     Inv inputs (initial cwd inputs virt) {} := by
   refine ⟨by simp, by simp, by simp, by simp, ?_, ?_⟩
-  · intro f hf; right; simp [initial, hf]
-  · intro f hf
-    simp only [initial, List.mem_append, List.mem_map, List.mem_flatten] at hf
-    rcases hf with ⟨g, hg, e⟩ | ⟨l, ⟨b, _, rfl⟩, hl⟩
-    · cases e; exact hg
-    · simp at hl
+  · intro f hf; right; exact (mem_initial cwd inputs virt f).mpr hf
+  · intro f hf; exact (mem_initial cwd inputs virt f).mp hf
 
 /-- **deps = files read.**  Under the modelled libclang contract (`run`: one inclusion directive
     reported, with its resolved file, for every `#include` processed in an active region — also
